@@ -9,6 +9,7 @@ import (
 	"sort"
 	"strconv"
 	"strings"
+	"sync/atomic"
 	"time"
 
 	"verif/harness/internal/sx"
@@ -549,6 +550,8 @@ func emod(a, m int64) int64 {
 
 var timeType = reflect.TypeOf(time.Time{})
 
+var emptyForm atomic.Int64
+
 // GoType of the destination for a schema node.
 // GoTypeAlt: a SECOND destination type for the same schema — every struct level has its fields in
 // reverse order behind a padding field, so that same-named fields sit at different positions
@@ -723,7 +726,16 @@ func SetD(n *Node, rv reflect.Value, d D) {
 			SetD(n.Elem, s.Index(i), x)
 		}
 		if len(d.L) == 0 {
-			s = reflect.Zero(rv.Type()) // nil slice
+			// the three empty slices of Go, in turn: nil, empty without capacity, empty WITH spare capacity
+			// (a reused buffer buf[:0]) — the same empty value for every rule of the library
+			switch emptyForm.Add(1) % 3 {
+			case 0:
+				s = reflect.Zero(rv.Type())
+			case 1:
+				s = reflect.MakeSlice(rv.Type(), 0, 0)
+			default:
+				s = reflect.MakeSlice(rv.Type(), 0, 4)
+			}
 		}
 		rv.Set(s)
 	case "st":
